@@ -73,6 +73,8 @@ func (m *MLDv2MulticastListenerQueryMessage) DecodeFromBytes(data []byte, df gop
 
 	m.NumberOfSources = binary.BigEndian.Uint16(data[22:24])
 
+	// the addresses are appended below: do not keep those of an earlier decode
+	m.SourceAddresses = nil
 	var end int
 	for i := uint16(0); i < m.NumberOfSources; i++ {
 		begin := 24 + (int(i) * 16)
